@@ -37,7 +37,7 @@ import time
 import types
 
 STREAMS = ['bytes-helpers', 'spec-table', 'scripted-exhaustive', 'scripted-random', 'scripted-boundary',
-           'scripted-malformed', 'real-mechs']
+           'scripted-malformed', 'real-mechs', 'real-interleaved']
 THEOREMS = ['authenticated_only_after_accept', 'refines_spec_server', 'closes_exactly_when',
             'no_line_processed_after_close', 'conforming_client_accepted', 'wrong_cookie_never_accepted',
             'line_partition_independent']
@@ -251,7 +251,18 @@ def make_session(mode, script=None, env=None, strict_script=False):
     t = I['StringTransport']()
     proto.makeConnection(t)
     if env is not None:
-        proto._unix_creds = env.get('creds_tuple')
+        if env.get('linux') and env.get('creds_tuple') is not None:
+            # the SO_PEERCRED block of dataReceived runs for real, against a fake socket
+            import struct
+
+            class FakeSock:
+                def getsockopt(self, level, opt, size):
+                    assert (opt, size) == (17, struct.calcsize('3i')), (opt, size)
+                    return struct.pack('3i', *env['creds_tuple'])
+            t.socket = FakeSock()
+            I['protocol']._is_linux = True
+        else:
+            proto._unix_creds = env.get('creds_tuple')
     proto.h_auth = proto._dbusAuth
     proto.h_trace = tr
     return proto, t, tr
@@ -399,6 +410,8 @@ def crash_key(exc, pl, outcomes_before):
         return 'auth-invalid-hex-crash'
     if name == 'FileNotFoundError':
         return 'cookie-double-delete'
+    if name == 'KeyError':
+        return 'external-unknown-uid-begin-crash'
     return 'auth-line-crash-' + name
 
 
@@ -428,6 +441,7 @@ def oracle(stream, obs, tr, crashed, offered, limit, reject_msg):
     reason = None
     i = 0
     crashed_line = None
+    auth_at = 0
     for i, line in enumerate(parts):
         if phase in ('closed', 'authenticated'):
             break
@@ -455,23 +469,26 @@ def oracle(stream, obs, tr, crashed, offered, limit, reject_msg):
             crashed_line = i
             break
         pl = spec_parse(line, offered)
+        # The statement prescribes replies, not calls: any number of step() calls is fine.  The verdict the table
+        # is fed is the last one the mechanism gave on this line; when the table asks and no step was observed, the
+        # verdict is read back from the reply (an OK that no mechanism accept backs is caught by the safety monitor).
         verdict = None
+        observed_accept = False
         if h['outcomes']:
             name, verdict = h['outcomes'][-1]
-            if len(h['outcomes']) > 1:
-                bad('mechanism-stepped-twice', 'one line stepped the mechanism more than once', repr(h['outcomes']))
-            if name not in offered:
-                bad('authenticated-without-accept', 'a mechanism outside the offered table was stepped', repr(name))
+            observed_accept = (verdict == 'A' and name in offered)
         asks = ((phase == 'WaitingForAuth' and pl[0] == 'auth' and pl[1] in offered and pl[2])
                 or (phase == 'WaitingForData' and pl[0] == 'data' and pl[1]))
-        if asks and verdict is None:
-            bad('auth-reply-not-per-state-table', 'line %r in state %s must consult the mechanism, it was not stepped'
-                % (line[:60], phase), fmt_obs(obs))
-            return out
-        if not asks and verdict is not None:
-            bad('auth-reply-not-per-state-table', 'line %r in state %s stepped a mechanism' % (line[:60], phase),
-                fmt_obs(obs))
-            return out
+        if not asks:
+            verdict = None
+        elif verdict is None:
+            g0 = h['replies'][0] if len(h['replies']) == 1 else b''
+            if g0.startswith(b'OK '):
+                verdict = 'A'
+            elif g0.startswith(b'DATA '):
+                verdict = 'C:' + g0[5:].decode('ascii', 'replace')
+            else:
+                verdict = 'R'
         # invalid hex: the statement allows ERROR or REJECTED; follow what was answered
         bad_resp = ((phase == 'WaitingForAuth' and pl[0] == 'auth' and pl[1] in offered and not pl[2])
                     or (phase == 'WaitingForData' and pl[0] == 'data' and not pl[1]))
@@ -502,7 +519,7 @@ def oracle(stream, obs, tr, crashed, offered, limit, reject_msg):
                 hxs(got), hx(exp))
             return out
         # safety monitor
-        if verdict == 'A':
+        if observed_accept:
             accepted = True
         if h['rejects'] or reply == 'rejected' or (reply == 'nothing' and phase2 == 'closed' and pl[0] != 'begin'):
             accepted = False
@@ -511,6 +528,8 @@ def oracle(stream, obs, tr, crashed, offered, limit, reject_msg):
                 fmt_obs(obs))
         if phase2 == 'closed':
             reason = 'begin-out-of-turn' if pl[0] == 'begin' else 'reject-limit'
+        if phase2 == 'authenticated':
+            auth_at = i
         phase, rejects = phase2, rejects2
     else:
         i = len(parts)
@@ -526,6 +545,11 @@ def oracle(stream, obs, tr, crashed, offered, limit, reject_msg):
             bad('conforming-client-not-accepted', 'accept + BEGIN did not authenticate the connection', fmt_obs(obs), 'auth=1')
         if obs['closed']:
             bad('closed-without-cause', 'the connection was closed after a successful authentication', fmt_obs(obs))
+        # "its bytes interpreted as messages": everything after the BEGIN line reaches the binary branch, unchanged
+        rest = stream[1 + sum(len(l) + 2 for l in parts[:auth_at + 1]):]
+        if obs['auth'] and obs['bin'] != hx(rest):
+            bad('handoff-bytes-lost', 'the bytes following the BEGIN line did not reach the message branch unchanged',
+                obs['bin'], hx(rest))
         return out
     if obs['auth']:
         bad('authenticated-without-accept', 'connectionAuthenticated ran although the exchange did not reach '
@@ -853,6 +877,9 @@ def run_bytes_helpers(ctx):
     for _ in range(n):
         b = b''.join(rng.choice(alph) for _ in range(rng.randint(0, 9)))
         cases.append((rng.choice(ops), b))
+    intalph = [b' ', b'\t', b'\n', b'\x1f', b'0', b'1', b'7', b'9', b'_', b'+', b'-', b'x', b'\x00', b'a']
+    for _ in range(n // 3):
+        cases.append(('int', b''.join(rng.choice(intalph) for _ in range(rng.randint(0, 6)))))
     out = ctx.model(['B %s %s' % (op, hx(b)) for op, b in cases])
     for k, (op, b) in enumerate(cases):
         if op == 'splitws':
@@ -965,7 +992,8 @@ class RealEnv:
         self.root = tempfile.mkdtemp(prefix='c06-')
         self.sha = {}
         self.calls = 0
-        self.now = int(time.time())
+        self.now = 1700000000           # time.time() is patched: whole seconds, or + 0.5 when spec['frac']
+        self.frac = bool(spec.get('frac'))
 
     def home(self, h):
         return os.path.join(self.root, h)
@@ -995,6 +1023,11 @@ class RealEnv:
             with open(os.path.join(dk, self.ctxname), 'wb') as f:
                 for cid, age, cookie in ents:
                     f.write(b'%d %d %s\n' % (cid, self.now - age, cookie.encode('ascii')))
+        C = auth.BusCookieAuthenticator
+        self.old_defaults = (C._get_cookies.__defaults__, C._create_cookie.__defaults__)
+        tf = (lambda: self.now + 0.5) if self.frac else (lambda: float(self.now))
+        C._get_cookies.__defaults__ = (tf,)
+        C._create_cookie.__defaults__ = (tf,)
         self.old_pwd = sys.modules.get('pwd')
         sys.modules['pwd'] = FakePwd(users)
         self.old_urandom = os.urandom
@@ -1024,6 +1057,9 @@ class RealEnv:
             sys.modules.pop('pwd', None)
         os.urandom = self.old_urandom
         I['authentication'].hashlib = self.old_hashlib
+        C = I['authentication'].BusCookieAuthenticator
+        C._get_cookies.__defaults__, C._create_cookie.__defaults__ = self.old_defaults
+        I['protocol']._is_linux = False
         shutil.rmtree(self.root, ignore_errors=True)
 
     last_user = None
@@ -1091,7 +1127,8 @@ class RealEnv:
         for k in range(16):
             sha.setdefault(rnd_bytes(k, 8), hashlib.sha1(rnd_bytes(k, 8)).digest())
         shas = ','.join('%s:%s' % (hx(a), hx(b)) for a, b in sorted(sha.items())) or '-'
-        return ';'.join([creds, passwd, dirs, files, str(self.now), hx(self.ctxname.encode()), shas])
+        return ';'.join([creds, passwd, dirs, files, str(self.now) + ('+' if self.frac else ''),
+                         hx(self.ctxname.encode()), shas])
 
 
 CC = b'636c69656e746368616c'     # the client's challenge (already hex, as real clients send it)
@@ -1137,15 +1174,20 @@ def resolve_action(act, env, last_data):
             resp = cc + b' ' + digest.upper()
         elif variant == 'wrongcookie':
             resp = cc + b' ' + binascii.hexlify(hashlib.sha1(chal + b':' + cc + b':' + b'00' * 24).digest())
+        elif variant.startswith('trunc'):
+            resp = cc + b' ' + digest[:int(variant[5:])]
         elif variant == 'three':
             resp = cc + b' ' + digest + b' x'
         elif variant == 'one':
             resp = digest
         else:
             resp = b''
-        upper_case_is_right = (variant == 'upper' and digest.upper() == digest)
         line = b'DATA ' + binascii.hexlify(resp) if resp else b'DATA'
-        return line, (variant in ('right', 'right-spaces') or upper_case_is_right)
+        # 'upper': same digest, other letter case - whether hex digests compare case-insensitively is not said
+        # by the statement: not judged (None)
+        if variant == 'upper':
+            return line, (True if digest.upper() == digest else None)
+        return line, variant in ('right', 'right-spaces')
     raise ValueError(act)
 
 
@@ -1153,7 +1195,8 @@ def run_real(spec, actions, reads=None):
     """Phase 1 (reads is None): resolve the symbolic actions line by line.  Phase 2: replay the concrete
     reads.  Returns (obs, tr, crashed, lines, env-derived model env, fs observation, facts)."""
     with RealEnv(spec) as env:
-        e = {'creds_tuple': None if spec['creds'] is None else (4242, spec['creds'], spec['creds'])}
+        e = {'creds_tuple': None if spec['creds'] is None else (4242, spec['creds'], spec.get('creds_gid', 77)),
+             'linux': spec.get('linux', False)}
         proto, t, tr = make_session('real', env=e)
         facts = {'right_at': [], 'wrong_at': []}
         lines = []
@@ -1165,7 +1208,8 @@ def run_real(spec, actions, reads=None):
                 r = resolve_action(act, env, last_data)
                 if isinstance(r, tuple):
                     line, right = r
-                    (facts['right_at'] if right else facts['wrong_at']).append(k)
+                    if right is not None:
+                        (facts['right_at'] if right else facts['wrong_at']).append(k)
                 else:
                     line = r
                 lines.append(line)
@@ -1186,29 +1230,43 @@ def run_real(spec, actions, reads=None):
         return obs, tr, crashed, lines, menv, facts
 
 
-USERS = [['alice', 1000, 1000, 'h1'], ['bob', 1001, 1001, 'h2'], ['0', 7, 7, 'h1']]
+USERS = [['alice', 1000, 1001, 'h1'], ['bob', 1001, 1000, 'h2'], ['0', 7, 1000, 'h1']]
+
+
+AGES = [3, 10, 500, 5000, 29, 30, 31, -29, -30, -31, 0]
 
 
 def gen_real_case(rng):
-    spec = {'creds': rng.choice([None, 1000, 1001, 1000, 5555]), 'users': USERS,
-            'dirs': {}, 'files': {}}
+    spec = {'creds': rng.choice([None, 1000, 1001, 1000, 5555, -1]), 'creds_gid': rng.choice([77, 1000, 1001]),
+            'users': USERS, 'dirs': {}, 'files': {}, 'frac': rng.random() < 0.5,
+            'linux': rng.random() < 0.3}
     for h in ('h1', 'h2'):
         st = rng.choice(['absent', 'absent', 'good', 'good', 'bad777', 'file'])
         spec['dirs'][h] = st
         if st == 'good' and rng.random() < 0.6:
             ents = []
             for _ in range(rng.randint(0, 3)):
-                ents.append([rng.randint(1, 9), rng.choice([3, 10, 500, 5000]), '%048x' % rng.getrandbits(190)])
+                ents.append([rng.randint(1, 9), rng.choice(AGES), '%048x' % rng.getrandbits(190)])
             spec['files'][h] = ents
     kind = rng.random()
     conforming = None
     users = ['alice', 'bob', '1000', ' 1001 ', '1_000', '+1000', 'nobody', '4242', '-5', '', '0', '7', 'alice\x00']
     if kind < 0.12:
-        actions = [['raw', hx(b'AUTH ANONYMOUS' + rng.choice([b'', b' 6162']))], ['raw', hx(b'BEGIN')]]
+        actions = [['raw', hx(b'AUTH ANONYMOUS' + rng.choice([b'', b' 6162', b' 747864627573']))]]
+        if rng.random() < 0.3:
+            actions.append(['raw', hx(b'NEGOTIATE_UNIX_FD')])
+        if rng.random() < 0.3:
+            actions = [['raw', hx(rng.choice([b'AUTH EXTERNAL zz', b'AUTH BOGUS', b'AUTH', b'ERROR']))]] * rng.randint(1, 4) + actions
+        actions.append(['raw', hx(b'BEGIN')])
         conforming = 'anonymous'
     elif kind < 0.30:
-        actions = [['auth-external', rng.choice([None, '1000', '0'])], ['raw', hx(b'DATA')], ['raw', hx(b'BEGIN')]]
-        if spec['creds'] in (1000, 1001):
+        claimed = rng.choice([None, None, '1000', '1001', '0'])
+        actions = [['auth-external', claimed], ['raw', hx(b'DATA')]]
+        if rng.random() < 0.3:
+            actions.append(['raw', hx(b'NEGOTIATE_UNIX_FD')])
+        actions.append(['raw', hx(b'BEGIN')])
+        # conforming: the peer has credentials with a passwd entry and claims no identity or its own
+        if spec['creds'] in (1000, 1001) and claimed in (None, str(spec['creds'])):
             conforming = 'external'
     elif kind < 0.55:
         u = rng.choice(['alice', 'bob', '1000', '1001'])
@@ -1220,7 +1278,7 @@ def gen_real_case(rng):
     elif kind < 0.75:
         # a client that knows the user but not the cookie: every wrong variant, then (sometimes) the right one
         u = rng.choice(['alice', 'bob', '1000', '1001'])
-        v = rng.choice(['wronghash', 'wrongcc', 'upper', 'wrongcookie', 'three', 'one', 'empty'])
+        v = rng.choice(['wronghash', 'wrongcc', 'upper', 'wrongcookie', 'three', 'one', 'empty', 'trunc0', 'trunc1', 'trunc39'])
         actions = [['auth-cookie', u], ['cookie-resp', v], ['raw', hx(b'BEGIN')]]
         if rng.random() < 0.5:
             actions = actions[:2] + [['auth-cookie', u], ['cookie-resp', 'right'], ['raw', hx(b'BEGIN')]]
@@ -1231,7 +1289,7 @@ def gen_real_case(rng):
             if r < 0.3:
                 actions.append(['auth-cookie', rng.choice(users)])
             elif r < 0.55:
-                actions.append(['cookie-resp', rng.choice(['right', 'wronghash', 'wrongcc', 'upper', 'wrongcookie', 'three',
+                actions.append(['cookie-resp', rng.choice(['right', 'wronghash', 'wrongcc', 'upper', 'wrongcookie', 'three', 'trunc1', 'trunc39',
                                                            'one', 'empty', 'right-spaces'])])
             elif r < 0.65:
                 actions.append(['auth-external', rng.choice([None, '1000', 'zz'])])
@@ -1255,13 +1313,12 @@ def judge_real(ctx, case, pending, rng=None):
         h = tr1.handed[-1] if tr1.handed else None
         if h is not None and is_utf8(h['line'].split(b' ', 1)[0]):
             name = crashed1.split(':')[0]
-            benign = (name == 'KeyError' and h['line'].startswith(b'BEGIN'))     # peer uid without passwd entry
-            if not benign:
+            if True:
                 report(ctx, crash_key(crashed1, None, None),
                        '%s escapes dataReceived on line %r' % (crashed1, h['line'][:60]),
                        inp, fmt_obs(obs1), 'a reply per the state table')
     for key, what, observed, expected in oracle(stream, obs1, tr1, crashed1, offered, limit, reject_msg):
-        if crashed1 is not None and key.startswith(('auth-line-crash', 'external-creds', 'auth-invalid-hex', 'cookie-double')):
+        if crashed1 is not None and key.startswith(('auth-line-crash', 'external-creds', 'external-unknown', 'auth-invalid-hex', 'cookie-double')):
             continue
         report(ctx, key, what, inp, observed, expected)
     conf = case.get('conforming')
@@ -1305,6 +1362,71 @@ def judge_real(ctx, case, pending, rng=None):
         pending.append(('real-mechs', c2, 'R %s %s %s' % (hx(GUID), menv, ' '.join(hx(r) for r in reads)), line_m))
         ctx.stat('real: auth=%d closed=%d crashed=%d' % (obs['auth'], obs['closed'], obs['crashed']))
     ctx.stat('real: conforming=%s' % conf)
+
+
+def judge_interleaved(ctx, rng):
+    """Two connections to the same bus, interleaved line by line, both DBUS_COOKIE_SHA1 for users sharing (or not)
+    a keyring: each is accepted with the response computed from ITS challenge and cookie, and not with the other's.
+    Implementation only (the model has one connection)."""
+    ua, ub = rng.choice([('alice', 'alice'), ('alice', '7'), ('alice', 'bob'), ('1000', 'alice')])
+    spec = {'creds': None, 'users': USERS, 'dirs': {'h1': rng.choice(['absent', 'good']), 'h2': 'absent'}, 'files': {},
+            'frac': rng.random() < 0.5}
+    cross = rng.random() < 0.5
+    order = rng.choice(['AB', 'BA'])
+    case = {'kind': 'interleaved', 'users': [ua, ub], 'cross': cross, 'order': order, 'env': spec}
+    with RealEnv(spec) as env:
+        sess = {}
+        for name in 'AB':
+            proto, t, tr = make_session('real', env={'creds_tuple': None})
+            sess[name] = {'proto': proto, 't': t, 'tr': tr, 'crashed': None, 'data': b''}
+
+        def send(name, line):
+            x = sess[name]
+            _Cur.tr, _Cur.proto = x['tr'], x['proto']
+            if x['crashed'] is None:
+                before = len(x['t'].value())
+                x['crashed'] = feed(x['proto'], x['t'], [line])
+                for ln in x['t'].value()[before:].split(b'\r\n'):
+                    if ln.startswith(b'DATA'):
+                        x['data'] = ln
+
+        def response(name, user):
+            try:
+                ctxn, cid, chal = binascii.unhexlify(sess[name]['data'].split(b' ', 1)[1].strip()).split()
+            except Exception:
+                return b'DATA'
+            cookie = b'00'
+            for ent in (env.file_entries(env.home_of_user(user)) or []):
+                if ent[0] == cid:
+                    cookie = ent[2]
+            digest = binascii.hexlify(hashlib.sha1(chal + b':' + CC + b':' + cookie).digest())
+            return b'DATA ' + binascii.hexlify(CC + b' ' + digest)
+        send('A', b'\0AUTH DBUS_COOKIE_SHA1 ' + binascii.hexlify(ua.encode()) + b'\r\n')
+        send('B', b'\0AUTH DBUS_COOKIE_SHA1 ' + binascii.hexlify(ub.encode()) + b'\r\n')
+        ra, rb = response('A', ua), response('B', ub)
+        distinct = ra != rb
+        if cross:
+            ra, rb = rb, ra
+        for name in order:
+            send(name, (ra if name == 'A' else rb) + b'\r\n')
+        for name in order:
+            send(name, b'BEGIN\r\n')
+        ctx.case('real-interleaved', sample=case)
+        ctx.impl_trace()
+        for name in 'AB':
+            x = sess[name]
+            o = 'sent=%s closed=%d auth=%d crashed=%s' % (hxs(sent_lines(x['t'])), int(bool(x['t'].disconnecting)),
+                                                           x['proto'].authd, x['crashed'])
+            if x['crashed'] is not None:
+                report(ctx, crash_key(x['crashed'], None, None), 'connection %s of two interleaved ones: %s escapes '
+                       'dataReceived' % (name, x['crashed']), case, o, 'a reply per the state table')
+            elif not cross and not x['proto'].authd:
+                report(ctx, 'cookie-right-response-rejected', 'connection %s of two interleaved ones presented the right '
+                       'response to its own challenge and was not accepted' % name, case, o, 'auth=1')
+            elif cross and distinct and x['proto'].authd:
+                report(ctx, 'wrong-cookie-accepted', 'connection %s was accepted with the response computed for the '
+                       'other connection\'s challenge' % name, case, o, 'auth=0')
+        ctx.stat('interleaved: cross=%s' % cross)
 
 
 def is_second_step(tr, k):
@@ -1397,6 +1519,8 @@ def run(ctx):
     for _ in range(ctx.scale(quick=250, thorough=4000)):
         judge_real(ctx, gen_real_case(rng), pending)
     flush_model(ctx, pending)
+    for _ in range(ctx.scale(quick=60, thorough=1000)):
+        judge_interleaved(ctx, rng)
     ctx.exhaustive = False
 
 
